@@ -6,6 +6,15 @@ macro_rules! cfg {
         let tier = $run.tier;
         $run.explore(&t::$fam::u::<$n, $z>(), &plans::arith::<$fam::U<$n>>(tier));
         $run.explore(&t::$fam::i::<$n, $z>(), &plans::arith::<$fam::I<$n>>(tier));
+        // thorough: closure pass (non-initial states derived by the model)
+        if !$run.in_replay() {
+            if let Some(p) = plans::closure_plan(&t::$fam::u::<$n, $z>(), tier) {
+                $run.explore(&t::$fam::u::<$n, $z>(), &p);
+            }
+            if let Some(p) = plans::closure_plan(&t::$fam::i::<$n, $z>(), tier) {
+                $run.explore(&t::$fam::i::<$n, $z>(), &p);
+            }
+        }
     }};
 }
 
